@@ -80,12 +80,18 @@ def _immutable_root(body, t):
 
 
 def _some_payload_of(t, names):
-    """t == (call <name in names>(..)) as Some .0  -> the call term"""
+    """t == (call <name in names>(..)) as Some .0  -> the call term; also through `?` on the Option:
+    (branch(call ..)) as Continue .0"""
     t = strip(t)
     if t[0] == "proj" and t[1][0] == "call" and t[1][1] in names:
         pk = mir._strip_derefs(t[2])
         if len(pk) == 2 and pk[0][0] == "dc" and pk[0][1] == "Some":
             return t[1]
+    if t[0] == "proj" and t[1][0] == "call" and t[1][1] == "std::ops::Try::branch" and t[1][2]:
+        pk = mir._strip_derefs(t[2])
+        inner = strip(t[1][2][0])
+        if len(pk) == 2 and pk[0] == ("dc", "Continue") and inner[0] == "call" and inner[1] in names:
+            return inner
     return None
 
 
@@ -445,19 +451,18 @@ def loop_witnesses(body, header, blocks):
             else:
                 out.append(("pop", s, True, "%s shrinks a container that the loop does not grow; None leaves the loop" % name))
         elif m in READER_METHODS and name.startswith("quick_xml::"):
-            # Result<Event, Error>: Err must leave, Ok(Eof) must leave
-            nxt = body.succs(bb)
-            sw = mir.switch_enum(body, nxt[0]) if len(nxt) == 1 else None
+            # Result<Event, Error>: the error outcome must leave, Ok(Eof) must leave
+            from .events import reader_result_shape
+            sh = reader_result_shape(body, s)
             why = None
-            if sw is None or sw["enum"] != "std::result::Result":
-                why = "result of the reader call is not matched directly"
+            if sh["form"] is None:
+                why = "result of the reader call is neither matched directly nor `?`-propagated"
             else:
-                err = mir.variant_target(sw, body, "Err")
-                okb = mir.variant_target(sw, body, "Ok")
+                err = sh["err_block"]
                 if err is None or _returns_to(body, err, header, blocks):
-                    why = "the Err outcome of the reader call continues the loop"
+                    why = "the error outcome of the reader call continues the loop"
                 else:
-                    sw2 = mir.switch_enum(body, okb) if okb is not None else None
+                    sw2 = sh["event_switch"]
                     if sw2 is None or not sw2["enum"].endswith("::Event"):
                         why = "the Ok(event) is not matched by event kind directly"
                     else:
@@ -716,12 +721,8 @@ def _descent_witness(crate, body, cs, callee, comp):
 
 
 def _event_arm_of(body, reader_call, site):
-    nxt = body.succs(reader_call.bb)
-    sw = mir.switch_enum(body, nxt[0]) if len(nxt) == 1 else None
-    if sw is None:
-        return None
-    okb = mir.variant_target(sw, body, "Ok")
-    sw2 = mir.switch_enum(body, okb) if okb is not None else None
+    from .events import reader_result_shape
+    sw2 = reader_result_shape(body, reader_call)["event_switch"]
     if sw2 is None:
         return None
     arms = [v for v in sw2["variants"] if mir.variant_target(sw2, body, v) is not None and
@@ -732,7 +733,13 @@ def _event_arm_of(body, reader_call, site):
 def _guards(body, site):
     """list of (callee name, [arg terms], outcome bool) for bool-valued calls the site is control dependent on"""
     out = []
-    for (a, s) in body.transitive_control_deps(site.bb):
+    deps = body.transitive_control_deps(site.bb)
+    by_branch = {}
+    for (a, s) in deps:
+        by_branch.setdefault(a, set()).add(s)
+    for (a, s) in deps:
+        if by_branch[a] >= set(body.succs(a)):
+            continue  # reachable through every alternative of this test: not a condition
         t = body.blocks[a]["term"]
         if t["k"] != "switch":
             continue
